@@ -1780,7 +1780,7 @@ class OperatorRightScalarMult(Operator):
             return OperatorRightScalarMult(self.operator, self.scalar * other,
                                            self.__tmp)
         else:
-            return super(OperatorRightScalarMult, self).__rmul__(other)
+            return super(OperatorRightScalarMult, self).__mul__(other)
 
     @property
     def inverse(self):
